@@ -4,9 +4,14 @@ package c05
 import (
 	"encoding/json"
 	"fmt"
+	"math"
 	"regexp"
+	"runtime"
+	"sort"
 	"strings"
+	"syscall"
 	"testing"
+	"time"
 
 	zerr "github.com/DemoHn/Zn/pkg/error"
 	"github.com/DemoHn/Zn/pkg/exec"
@@ -30,6 +35,9 @@ func replay(sub string, raw json.RawMessage) ([]h.Failure, error) {
 		return nil, err
 	}
 	switch sub {
+	case "scaling":
+		f, _ := checkScaling(c.Src)
+		return f, nil
 	case "varinput":
 		return checkVarInput(c.Src), nil
 	default:
@@ -49,6 +57,9 @@ func checkFront(src string) []h.Failure {
 	case h.KPanic:
 		return []h.Failure{{Sig: "front/go-panic@" + pr.PanicSite, Msg: fmt.Sprintf("source %q: Parse panicked (Go value, not an error): %s", src, pr.PanicMsg)}}
 	case h.KValue:
+		if why := pr.SourceIntact(); why != "" {
+			return []h.Failure{{Sig: "front/source-modified", Msg: fmt.Sprintf("source %q: after compiling, %s", src, why)}}
+		}
 		_, missing := h.DumpProgram(pr.Program)
 		if len(missing) > 0 {
 			return []h.Failure{{Sig: "front/incomplete-tree@" + missing[0], Msg: fmt.Sprintf("source %q: accepted, but the tree lacks required parts %v", src, missing)}}
@@ -56,6 +67,9 @@ func checkFront(src string) []h.Failure {
 		return nil
 	}
 	// error path
+	if pr.Program != nil {
+		return []h.Failure{{Sig: "front/tree-and-error", Msg: fmt.Sprintf("source %q: a syntax error (%v) AND a tree were returned", src, pr.Err)}}
+	}
 	se, ok := pr.Err.(*zerr.SyntaxError)
 	if !ok {
 		return []h.Failure{{Sig: fmt.Sprintf("front/non-syntax-error@%T", pr.Err), Msg: fmt.Sprintf("source %q: Parse returned %T %q instead of a syntax error", src, pr.Err, pr.Err.Error())}}
@@ -73,6 +87,9 @@ func checkFront(src string) []h.Failure {
 	})
 	if kind != "" {
 		fails = append(fails, h.Failure{Sig: "front/display-panic@" + site, Msg: fmt.Sprintf("source %q: rendering the error (code %d cursor %d) panicked: %s", src, se.Code, se.Cursor, msg)})
+	}
+	if why := pr.SourceIntact(); why != "" {
+		fails = append(fails, h.Failure{Sig: "front/source-modified", Msg: fmt.Sprintf("source %q: after compiling and rendering the error, %s", src, why)})
 		return fails
 	}
 	// quoted line: second line of the rendering, 4-space prefix
@@ -340,6 +357,75 @@ func TestDeepNesting(t *testing.T) {
 		fails := checkFront(src)
 		h.R.Case(t, "nesting", fmt.Sprintf("blocks-%d", n), srcCase{Src: fmt.Sprintf("<如果 blocks nested %d deep>", n)}, []string{"deep-blocks"}, true, fails)
 	}
+}
+
+// ---------------------------------------------------------------------------------------
+// "promptly": the time to compile a program grows about linearly with its number of lines.
+// Measured as CPU time of the compiling thread (not wall clock), smallest of three runs, for
+// the same line repeated 10000 and 80000 times: 8 times the text may cost up to 24 times the
+// time (a quadratic front end needs 64 times)
+
+var scalingShapes = map[string]string{
+	"declarations":     "令A = 1\n",
+	"calls":            "（显示：1、2）\n",
+	"blocks":           "如果真：\n    （显示：1）\n",
+	"multi-line texts": "（显示：“a\nb”）\n",
+	"comments":         "注：说明\n令A = 1 // 尾注\n",
+	"list lines":       "【1，2，\n    3】\n",
+}
+
+func threadCPU() time.Duration {
+	var ru syscall.Rusage
+	syscall.Getrusage(1 /* RUSAGE_THREAD */, &ru)
+	return time.Duration(ru.Utime.Nano() + ru.Stime.Nano())
+}
+
+func compileCPU(src string) (time.Duration, error) {
+	best := time.Duration(1 << 62)
+	var err error
+	for i := 0; i < 3; i++ {
+		runes := []rune(src)
+		t0 := threadCPU()
+		_, err = syntax.NewParser(runes, zh.NewParserZH()).Compile()
+		if d := threadCPU() - t0; d < best {
+			best = d
+		}
+	}
+	return best, err
+}
+
+func checkScaling(shape string) ([]h.Failure, float64) {
+	unit := scalingShapes[shape]
+	runtime.LockOSThread()
+	defer runtime.UnlockOSThread()
+	small, err1 := compileCPU(strings.Repeat(unit, 10000))
+	large, err2 := compileCPU(strings.Repeat(unit, 80000))
+	if err1 != nil || err2 != nil {
+		return []h.Failure{{Sig: "scaling/valid-program-rejected", Msg: fmt.Sprintf("%q repeated: %v / %v", unit, err1, err2)}}, 0
+	}
+	if small < time.Millisecond {
+		small = time.Millisecond
+	}
+	ratio := float64(large) / float64(small)
+	if ratio > 24 {
+		return []h.Failure{{Sig: "scaling/superlinear-compile-time", Msg: fmt.Sprintf("the line %q repeated 10000 times compiles in %v of CPU time, repeated 80000 times in %v: %.1f times as long for 8 times the text", unit, small, large, ratio)}}, ratio
+	}
+	return nil, ratio
+}
+
+func TestCompileScaling(t *testing.T) {
+	names := make([]string, 0, len(scalingShapes))
+	for n := range scalingShapes {
+		names = append(names, n)
+	}
+	sort.Strings(names)
+	ratios := map[string]float64{}
+	for _, n := range names {
+		fails, ratio := checkScaling(n)
+		ratios[n] = math.Round(ratio*10) / 10
+		h.R.Case(t, "scaling", n, srcCase{n}, []string{"scaling:" + n}, true, fails)
+	}
+	h.R.Extra("compile_cpu_time_ratio_80000_vs_10000_lines", ratios)
 }
 
 func TestSeedsThemselves(t *testing.T) {
